@@ -20,6 +20,16 @@
 (* the real buffer, probes the stale bytes (event "hist", judged in        *)
 (* SerPure.tla against this prediction) and serializes real layers into    *)
 (* them.                                                                   *)
+(*                                                                         *)
+(* A history also leaves the RECORDED LAYER LIST behind (Layers()): every  *)
+(* SerializeLayers call pushes the types of the layers it wrote, Clear     *)
+(* empties the list (prop.layers, the Prop layer of SerializeBuffer.tla).  *)
+(* Serializers read it - IPv6.SerializeTo skips its own hop-by-hop header  *)
+(* when Layers() already names an IPv6HopByHop layer - so the stacks that  *)
+(* used the buffer before carry the real layer types, including            *)
+(* stand-alone IPv6 extension headers.  Type codes: 1 Ethernet, 2 IPv4,    *)
+(* 3 TCP, 4 Payload, 5 IPv6, 6 UDP, 7 IPv6HopByHop, 8 IPv6Destination,     *)
+(* 9 IPv6Fragment (the driver maps them to gopacket layer types).          *)
 (***************************************************************************)
 EXTENDS SerializeBuffer, Json
 
@@ -27,8 +37,9 @@ CONSTANTS FillBytes,   \* e.g. {170, 255}
           MaxFill      \* number of filling operations before the final Clear (depth)
 
 VARIABLES ph,          \* "open" | "done"
-          fb           \* fill byte of this history (0 while nothing has been written)
-hvars == <<prop, impl, hist, ph, fb>>
+          fb,          \* fill byte of this history (0 while nothing has been written)
+          seen         \* layer types any SerializeLayers call of this history recorded
+hvars == <<prop, impl, hist, ph, fb, seen>>
 
 FillSeq(f, n) == [i \in 1..n |-> f]
 
@@ -37,10 +48,12 @@ HLayer(s, l, f) == IAppend(IPrepend(s, l[2], FillSeq(f, l[2])), l[3], FillSeq(f,
 RECURSIVE HStack(_, _, _, _)
 HStack(s, ls, i, f) == IF i = 0 THEN s ELSE HStack(HLayer(s, ls[i], f), ls, i - 1, f)
 HSerLayers(s, ls, f) == HStack(IClear(s), ls, Len(ls), f)      \* SerializeLayers clears first
+\* ... and records the layer types, innermost first
+PushedBy(ls) == [i \in 1..Len(ls) |-> ls[Len(ls) + 1 - i][1]]
 
 NFill == Len(hist) - 1
 
-HInit == /\ prop = PInit /\ ph = "open" /\ fb = 0
+HInit == /\ prop = PInit /\ ph = "open" /\ fb = 0 /\ seen = {}
          /\ \/ impl = IInit(<<0, 0>>) /\ hist = << <<"fresh">> >>
             \/ \E h \in Hints : impl = IInit(h) /\ hist = << <<"new", h[1], h[2]>> >>
 
@@ -48,24 +61,29 @@ ChooseFill(f) == IF fb = 0 THEN f \in FillBytes ELSE f = fb
 
 HPrepend(n, f) == /\ impl' = IPrepend(impl, n, FillSeq(f, n))
                   /\ hist' = Append(hist, <<"prepend", n>>)
+                  /\ UNCHANGED <<prop, seen>>
 HAppend(n, f)  == /\ impl' = IAppend(impl, n, FillSeq(f, n))
                   /\ hist' = Append(hist, <<"append", n>>)
+                  /\ UNCHANGED <<prop, seen>>
 HSer(ls, f)    == /\ impl' = HSerLayers(impl, ls, f)
                   /\ hist' = Append(hist, <<"serlayers", ls>>)
+                  /\ prop' = [prop EXCEPT !.layers = PushedBy(ls)]
+                  /\ seen' = seen \cup {ls[i][1] : i \in 1..Len(ls)}
 
 HFill == /\ ph = "open" /\ NFill < MaxFill
          /\ \E f \in FillBytes :
               /\ ChooseFill(f) /\ fb' = f
               /\ \/ \E n \in Sizes : HPrepend(n, f) \/ HAppend(n, f)
                  \/ \E ls \in Stacks : HSer(ls, f)
-         /\ UNCHANGED <<prop, ph>>
+         /\ UNCHANGED ph
 
 \* a history that wrote anything ends with Clear; fresh / new(p,a) are complete as they are
 HClear == /\ ph = "open" /\ NFill > 0
           /\ impl' = IClear(impl) /\ hist' = Append(hist, <<"clear">>)
-          /\ ph' = "done" /\ UNCHANGED <<prop, fb>>
+          /\ prop' = [prop EXCEPT !.layers = PClear(prop).layers]
+          /\ ph' = "done" /\ UNCHANGED <<fb, seen>>
 HStop  == /\ ph = "open" /\ NFill = 0
-          /\ ph' = "done" /\ UNCHANGED <<prop, impl, hist, fb>>
+          /\ ph' = "done" /\ UNCHANGED <<prop, impl, hist, fb, seen>>
 
 HNext == HFill \/ HClear \/ HStop
 HSpec == HInit /\ [][HNext]_hvars
@@ -80,7 +98,8 @@ StaleAfter(s)  == Cardinality({i \in (s.dlen + 1)..Cap(s) : s.data[i] # 0})
 StaleNear(s, N) == Cardinality({i \in 1..s.start : i > s.start - N /\ s.data[i] # 0})
 
 \* the abstract buffer is empty in every complete history (C18's Clear law, re-checked here)
-DoneIsEmpty == ph = "done" => (IBytes(impl) = <<>> /\ impl.start <= impl.dlen /\ impl.dlen <= Cap(impl))
+DoneIsEmpty == ph = "done" => (IBytes(impl) = <<>> /\ impl.start <= impl.dlen /\ impl.dlen <= Cap(impl)
+                               /\ prop.layers = <<>>)
 \* only the fill byte or zero is ever in the array
 OnlyFill == \A i \in 1..Cap(impl) : impl.data[i] \in {0, fb}
 
@@ -88,12 +107,14 @@ HExport == ph = "done" =>
   PrintT("BEH " \o ToJson([ops |-> hist, f |-> fb,
                            before |-> RoomBefore(impl), after |-> RoomAfter(impl),
                            staleBefore |-> StaleBefore(impl), staleAfter |-> StaleAfter(impl),
-                           stale64 |-> StaleNear(impl, 64)]))
+                           stale64 |-> StaleNear(impl, 64),
+                           layersLeft |-> Len(prop.layers), pushed |-> seen]))
 
 MC_Hints == {<<p, a>> : p \in {0, 1, 64, 4096}, a \in {0, 1, 64, 4096}}
 \* other packets that used the buffer before: header sizes of Ethernet/IPv4/TCP over 1000 bytes, a padded
-\* 60-byte Ethernet frame (14 + 1 + 45 bytes of trailer), UDP over IPv6 over 4096 bytes
+\* 60-byte Ethernet frame (14 + 8 + 1 + 37 bytes of trailer) around a stand-alone IPv6 fragment header, UDP
+\* behind stand-alone IPv6 hop-by-hop and destination headers over 4096 bytes
 MC_Stacks == { << <<1, 14, 0>>, <<2, 20, 0>>, <<3, 20, 0>>, <<4, 1000, 0>> >>,
-               << <<1, 14, 45>>, <<4, 1, 0>> >>,
-               << <<5, 40, 0>>, <<6, 8, 0>>, <<4, 4096, 0>> >> }
+               << <<1, 14, 37>>, <<9, 8, 0>>, <<4, 1, 0>> >>,
+               << <<5, 40, 0>>, <<7, 8, 0>>, <<8, 16, 0>>, <<6, 8, 0>>, <<4, 4096, 0>> >> }
 =============================================================================
